@@ -335,6 +335,6 @@ func TestVerif_C42_Conc(t *testing.T) {
 		"one goroutine per client handle (a GitBlobstore handle deliberately serves its cached manifest to readers while its own write is in flight, so a handle is one sequential client)",
 		"git handles read with the fetch-dedup window disabled (SyncForReadTTL=1ns)")
 	defer rec.Write(t)
-	vh.Check(t, "conc", 40, 110, func(rt *rapid.T) { c42ConcCase(rt, rec, 12, 0) })
-	vh.Check(t, "conc_git", 2, 4, func(rt *rapid.T) { c42ConcCase(rt, rec, 0, 100) })
+	vh.Check(t, "conc", 40, 200, func(rt *rapid.T) { c42ConcCase(rt, rec, 12, 0) })
+	vh.Check(t, "conc_git", 2, 2, func(rt *rapid.T) { c42ConcCase(rt, rec, 0, 100) })
 }
